@@ -9,6 +9,7 @@ package main
 // against TRACE_Repl.
 
 import (
+	"bytes"
 	"encoding/json"
 	"flag"
 	"fmt"
@@ -107,6 +108,44 @@ func (n *replNode) stop(max time.Duration) bool {
 	}
 }
 
+// Concretisation used by the system scenarios: the classes of Conc plus "huge" (every value is 100 KB, so that a
+// transaction of three keys exceeds the 256 KB limit of the primary's push batcher).
+func replKeyBytes(c Conc, tok string) []byte {
+	if c.Class == "huge" {
+		return Conc{Class: "ascii", Seed: c.Seed}.Key(tok)
+	}
+	return c.Key(tok)
+}
+
+func replValBytes(c Conc, tok string) []byte {
+	if c.Class != "huge" {
+		return c.Val(tok)
+	}
+	b := make([]byte, 100*1024)
+	x := c.Seed*1000003 + 12345
+	for _, ch := range []byte(tok) {
+		x = x*31 + uint64(ch)
+	}
+	for i := range b {
+		x = x*6364136223846793005 + 1442695040888963407
+		b[i] = byte(x >> 56)
+	}
+	copy(b, []byte(tok+"|"))
+	return b
+}
+
+func replValToken(c Conc, b []byte, toks []string) string {
+	if c.Class != "huge" {
+		return c.ValToken(b, toks)
+	}
+	for _, t := range toks {
+		if bytes.Equal(replValBytes(c, t), b) {
+			return t
+		}
+	}
+	return fmt.Sprintf("?(%d bytes)", len(b))
+}
+
 func replEngLastSeq(e *engine.EngineFacade) string {
 	return fmt.Sprint(e.GetStats()["storage_last_sequence"])
 }
@@ -117,13 +156,13 @@ func replEngLastSeq(e *engine.EngineFacade) string {
 func replScanTokens(conc Conc, e *engine.EngineFacade, keys, vals []string) (map[string]string, int, error) {
 	st := map[string]string{}
 	for _, k := range keys {
-		v, err := e.Get(conc.Key(k))
+		v, err := e.Get(replKeyBytes(conc, k))
 		if isNotFound(err) {
 			st[k] = "NONE"
 		} else if err != nil {
 			return nil, 0, err
 		} else {
-			st[k] = conc.ValToken(v, vals)
+			st[k] = replValToken(conc, v, vals)
 		}
 	}
 	it, err := e.GetIterator()
@@ -135,7 +174,7 @@ func replScanTokens(conc Conc, e *engine.EngineFacade, keys, vals []string) (map
 		if it.IsTombstone() {
 			continue
 		}
-		if _, ok := st[conc.KeyToken(it.Key(), keys)]; !ok {
+		if _, ok := st[Conc{Class: map[bool]string{true: "ascii", false: conc.Class}[conc.Class == "huge"], Seed: conc.Seed}.KeyToken(it.Key(), keys)]; !ok {
 			unknown++ // a key outside the model
 		}
 	}
@@ -228,15 +267,34 @@ func (d *replDriver) sampler() {
 	}
 }
 
-func (d *replDriver) write(op []kvEntry) error {
+// write executes one primary write: a put / delete, a committed transaction, or (api "ab" / "abn") one
+// Engine.ApplyBatch call - with "abn" the entries' SequenceNumber field holds the number the batch is about to get.
+func (d *replDriver) write(op []kvEntry, api string) error {
 	d.log.ev(map[string]interface{}{"e": "w", "op": op})
 	var err error
 	for try := 0; try < 200; try++ {
-		if len(op) == 1 {
+		if api == "ab" || api == "abn" {
+			var seq uint64
+			if api == "abn" {
+				fmt.Sscan(replEngLastSeq(d.prim.eng), &seq)
+				seq++
+			}
+			batch := make([]*wal.Entry, 0, len(op))
+			for _, x := range op {
+				e := &wal.Entry{SequenceNumber: seq, Type: wal.OpTypePut, Key: replKeyBytes(d.conc, x.K)}
+				if x.V == "TOMB" {
+					e.Type = wal.OpTypeDelete
+				} else {
+					e.Value = replValBytes(d.conc, x.V)
+				}
+				batch = append(batch, e)
+			}
+			err = d.prim.eng.ApplyBatch(batch)
+		} else if len(op) == 1 {
 			if op[0].V == "TOMB" {
-				err = d.prim.eng.Delete(d.conc.Key(op[0].K))
+				err = d.prim.eng.Delete(replKeyBytes(d.conc, op[0].K))
 			} else {
-				err = d.prim.eng.Put(d.conc.Key(op[0].K), d.conc.Val(op[0].V))
+				err = d.prim.eng.Put(replKeyBytes(d.conc, op[0].K), replValBytes(d.conc, op[0].V))
 			}
 		} else {
 			tx, e := d.prim.eng.BeginTransaction(false)
@@ -245,9 +303,9 @@ func (d *replDriver) write(op []kvEntry) error {
 			}
 			for _, x := range op {
 				if x.V == "TOMB" {
-					err = tx.Delete(d.conc.Key(x.K))
+					err = tx.Delete(replKeyBytes(d.conc, x.K))
 				} else {
-					err = tx.Put(d.conc.Key(x.K), d.conc.Val(x.V))
+					err = tx.Put(replKeyBytes(d.conc, x.K), replValBytes(d.conc, x.V))
 				}
 				if err != nil {
 					break
@@ -328,8 +386,8 @@ func replSysCmd(args []string) int {
 	go d.sampler()
 	for _, s := range sc.Steps {
 		switch s.A {
-		case "w":
-			if err := d.write(s.Op); err != nil {
+		case "w", "ab", "abn":
+			if err := d.write(s.Op, s.A); err != nil {
 				return fail("primary write: " + err.Error())
 			}
 		case "flush":
@@ -362,7 +420,7 @@ func replSysCmd(args []string) int {
 		case "cwr":
 			// a client write on the replica must be refused and change nothing (the sampler would show a change)
 			if d.repl != nil {
-				err := d.repl.eng.Put(d.conc.Key("k1"), []byte("client-write-on-replica"))
+				err := d.repl.eng.Put(replKeyBytes(d.conc, "k1"), []byte("client-write-on-replica"))
 				d.log.ev(map[string]interface{}{"e": "cwr", "refused": err != nil})
 			}
 		case "sleep":
